@@ -197,9 +197,12 @@ K.behavior("esri", FDC_IS + " and forall(k, 0 <= k < nval, valid_cell(nrows, nco
 # whatever the table: every answer is a valid cell, -1 or -2 (C05: callers index arrays with it)
 K.behavior("range", "forall(k, 0 <= k < nval, valid_cell(nrows, ncols, idxup[k]))",
            "forall(k, 0 <= k < nval, idxdown[k] == -1 or idxdown[k] == -2 or valid_cell(nrows, ncols, idxdown[k]))", props=["C05"])
+# on an invalid cell the kernel stops: entries from the first invalid cell on are left untouched
+K.ensures("forall(k, 0 <= k < nval, implies(exists(q, 0 <= q <= k, not valid_cell(nrows, ncols, idxup[q])), idxdown[k] == old(idxdown[k])))", props=["C05"])
 K.loop(0, var="i", invariant=[
     "0 <= i and i <= nval",
     "forall(k, 0 <= k < i, valid_cell(nrows, ncols, idxup[k]))",
+    "forall(k, i <= k < nval, idxdown[k] == old(idxdown[k]))",
     "implies(" + FDC_IS + ", forall(k, 0 <= k < i, idxdown[k] == down(nrows, ncols, flowdir[idxup[k]], idxup[k])))",
     "forall(k, 0 <= k < i, idxdown[k] == -1 or idxdown[k] == -2 or valid_cell(nrows, ncols, idxdown[k]))",
 ])
@@ -357,3 +360,22 @@ K.loop(1, var="k", invariant=[
     ("Pigeonhole", "implies(valid_cell(nrows, ncols, idxcell[0]) and "
      "forall(q, 0 <= q < j, valid_cell(nrows, ncols, idxcells[q]) and idxcells[q] != idxcell[0]) and "
      "forall(k1, 0 <= k1 < j, forall(k2, k1 < k2 < j, idxcells[k1] != idxcells[k2])), j < nrows*ncols)")])
+
+# ====================================================================================== c_voronoi (C05 safety, C16 partial)
+K = F.kernel("c_voronoi")
+K.requires(SANE_GRID)
+K.requires("ncells >= 0 and ncells <= 2**60 and npoints <= 2**60 and npoints >= -2**60")
+K.requires("valid(idxcells_area, ncells) and valid(xypoints, 2*npoints) and valid(weights, npoints)")
+K.requires("separated(idxcells_area, xypoints, weights)")
+K.requires("not isnan(xll) and not isnan(yll) and not isnan(csz)")
+# content precondition (established by the catchment delineation): the area cells are cells of the grid
+K.requires("forall(k, 0 <= k < ncells, valid_cell(nrows, ncols, idxcells_area[k]))")
+K.assigns("weights[0:npoints]")
+K.behavior("no_point", "npoints < 1", "result > 0", props=["C05", "C16"])
+K.behavior("points", "npoints >= 1", "result == 0", props=["C16"])
+K.behavior("nonneg", "npoints >= 1 and ncells >= 1", "forall(j, 0 <= j < npoints, weights[j] >= 0)", props=["C16"])
+K.loop(0, var="j", invariant=["0 <= j and j <= npoints and npoints >= 1", "forall(q, 0 <= q < j, weights[q] == 0)"])
+K.loop(1, var="i", invariant=["0 <= i and i <= ncells and npoints >= 1", "forall(q, 0 <= q < npoints, weights[q] >= 0)"])
+K.loop(2, var="j", invariant=["0 <= j and j <= npoints and 0 <= jmin and jmin < npoints"])
+K.loop(3, var="j", invariant=["0 <= j and j <= npoints and npoints >= 1",
+                               "forall(q, 0 <= q < npoints, weights[q] >= 0 or ncells == 0)"])
